@@ -417,9 +417,13 @@ def check_nbr(ctx: Ctx, case, jobs: Jobs | None = None) -> bool:
                 ctx.disagree("nbr", case, f"model replied {toks}")
                 return
             mm = [int(t) for t in toks[: case["N"]]]
+            mc = [int(t) for t in toks[case["N"]: 2 * case["N"]]]
             for i in range(case["N"]):
                 if lo[i] == hi[i] and bool(mm[i]) != m[i]:
                     ctx.disagree("nbr", case, f"point {i}: implementation keeps={m[i]} model keeps={bool(mm[i])}")
+                    return
+                if radius >= 0 and not (lo[i] <= mc[i] <= hi[i]):
+                    ctx.disagree("nbr", case, f"point {i}: model count {mc[i]} outside the exact count [{lo[i]}, {hi[i]}]")
                     return
         jobs.add(case["N"] ** 2, line, cb)
     # equivariance on the real code
@@ -885,7 +889,8 @@ def check_camera(ctx: Ctx, case, jobs: Jobs | None = None) -> bool:
     if ext is not None:
         R = quat_rot(extB[:, 3:])
         pc = torch.einsum("bij,bnj->bni", R, ptsB) + extB[:, None, :3]
-        Pmag = torch.einsum("bij,bnj->bni", R.abs(), ptsB.abs()) + extB[:, None, :3].abs()
+        # q.act(p) = p + w*uv + v x uv with uv = 2(v x p): every component sees terms of size ~|p| (not |R||p|)
+        Pmag = 6 * ptsB.abs().amax(-1, keepdim=True).expand_as(ptsB) + extB[:, None, :3].abs()
     else:
         pc, Pmag = ptsB, ptsB.abs()
     h = torch.einsum("bij,bnj->bni", KB, pc)
@@ -1276,6 +1281,21 @@ def signature(c):
             tuple(c.get("batch", [])))
 
 
+def guarded(ctx: Ctx, c, jobs):
+    """run one check; a result whose structure cannot even be examined (wrong rank, wrong type, ...) is a failure of
+    the implementation on this input, not an infrastructure problem (the unchanged tree never takes this path)"""
+    try:
+        return CHECKS[c["stream"]](ctx, c, jobs)
+    except common.InfraError:
+        raise
+    except Exception as e:  # noqa: BLE001
+        import traceback
+        tb = traceback.format_exc()
+        ctx.fail(c, f"{c['stream']}-malformed: the implementation's result could not be examined: "
+                    f"{type(e).__name__}: {str(e)[:160]} @ {tb.strip().splitlines()[-3].strip()[:120]}")
+        return False
+
+
 def run_case(ctx: Ctx, c, jobs):
     st = c["stream"]
     ctx.count(f"{st}")
@@ -1286,14 +1306,14 @@ def run_case(ctx: Ctx, c, jobs):
     nontrivial = c.get("N", 2) >= 2
     ctx.note_case(signature(c), nontrivial)
     ctx.sample({k: v for k, v in c.items()}, cap=14)
-    ok = CHECKS[st](ctx, c, jobs)
+    ok = guarded(ctx, c, jobs)
     # history: a later call with the same shapes and parameters on other data (stale state kept between calls)
     if ok and st in ("nbr", "voxel", "knnf", "knn", "randf") and c["N"] <= 70 and ctx.rng.random() < 0.2:
         c2 = dict(c)
         c2["data_seed"] = c["data_seed"] + 1
         c2["perm_seed"] = None
         ctx.count(f"{st}.later-call-same-shape")
-        ok = CHECKS[st](ctx, c2, None) and ok
+        ok = guarded(ctx, c2, None) and ok
     return ok
 
 
@@ -1302,10 +1322,10 @@ def run(ctx: Ctx):
     torch.set_num_threads(2)
     jobs = Jobs()
     hiN = 300
-    plan = [("knn", gen_knn_case, ctx.pick(110, 900)), ("nbr", gen_nbr_case, ctx.pick(130, 1000)),
-            ("voxel", gen_voxel_case, ctx.pick(130, 1000)), ("knnf", gen_knnf_case, ctx.pick(130, 1000)),
-            ("randf", gen_randf_case, ctx.pick(60, 400))]
-    big_budget = {"knn": ctx.pick(2, 14), "nbr": ctx.pick(2, 14), "voxel": ctx.pick(3, 20), "knnf": ctx.pick(2, 14), "randf": 50}
+    plan = [("knn", gen_knn_case, ctx.pick(140, 2400)), ("nbr", gen_nbr_case, ctx.pick(170, 2800)),
+            ("voxel", gen_voxel_case, ctx.pick(170, 2800)), ("knnf", gen_knnf_case, ctx.pick(170, 2800)),
+            ("randf", gen_randf_case, ctx.pick(70, 1000))]
+    big_budget = {"knn": ctx.pick(2, 30), "nbr": ctx.pick(2, 30), "voxel": ctx.pick(3, 40), "knnf": ctx.pick(2, 30), "randf": 1000}
     # hand-made corner cases first (docstring clouds with the outliers moved, 1-point clouds, single voxel, ...)
     for c in corner_cases():
         run_case(ctx, c, jobs)
@@ -1320,9 +1340,9 @@ def run(ctx: Ctx):
                     run_case(ctx, c, None)
                     continue
             run_case(ctx, c, jobs)
-    for _ in range(ctx.pick(120, 900)):
+    for _ in range(ctx.pick(150, 2400)):
         run_case(ctx, gen_camera_case(rng), jobs)
-    for _ in range(ctx.pick(60, 400)):
+    for _ in range(ctx.pick(70, 1000)):
         run_case(ctx, gen_homo_case(rng), jobs)
     jobs.flush(ctx)
 
@@ -1366,12 +1386,12 @@ def search(ctx: Ctx):
     for it in range(1500):
         g = gens[it % len(gens)]
         c = g(rng, 40)
-        CHECKS[c["stream"]](ctx, c, None)
+        guarded(ctx, c, None)
         if ctx.failures:
             return
     for it in range(400):
         c = gen_camera_case(rng) if it % 3 else gen_homo_case(rng)
-        CHECKS[c["stream"]](ctx, c, None)
+        guarded(ctx, c, None)
         if ctx.failures:
             return
 
@@ -1380,7 +1400,7 @@ def replay(ctx: Ctx, case) -> bool:
     c = dict(case["case"])
     n0 = len(ctx.failures)
     jobs = Jobs()
-    CHECKS[c["stream"]](ctx, c, jobs)
+    guarded(ctx, c, jobs)
     try:
         jobs.flush(ctx, workers=1)
     except common.InfraError as e:
